@@ -9,6 +9,7 @@ from ._e3 import E3Check
 class C08(E3Check):
     prop = "C08"
     mix = "c08"
+    quick_min_runs = 9000
     required_probes = E3Check.required_probes + E3Check.C08_ONLY_PROBES
 
 
